@@ -405,6 +405,9 @@ class Respondent(httping.Parsent):
             return  # already parsed the head
 
         self.headers = help.Hict()
+        # event source of an earlier response is not of this one
+        self.evented = None
+        self.eventSource = None
 
         lineParser = None
         while True:  # parse until we get a non-100 status
